@@ -114,6 +114,9 @@ def harness_traces(ctx):
         go("conc", ["--mode", "conc", "--traces", 20 if thorough else 6])
     if p in ("C05", "C06"):
         go("conc", ["--mode", "conc", "--traces", 120 if thorough else 24, "--goroutines", 100 if thorough else 32])
+    if p == "C06":
+        # one lock moved (the radius check before the put lock): built-in schedules with palindromic distances, judged at the commit gate
+        go("gatedpal", ["--mode", "gated", "--in", "builtin"])
     if p == "C05":
         cases = gated_cases(ctx)
         cin = os.path.join(ctx.work, "cases.ndjson")
